@@ -81,3 +81,10 @@ Definition mspec_ok (local : N) (view : N -> list shard) (data : N -> list N) (s
   forallb (fun src => mmapping_ok local (view src) (assoc_get [] lm src) (assoc_get [] rm src)) srcs
   && all2 (fun o r => res_ok data (view (fst o)) (snd o) (fst r)) ops res
   && (negb quiet || all2 (fun o r => seg_ok (assoc_get [] lm (fst o)) (view (fst o)) (snd r)) ops res).
+
+(* ---------- which groups must be read ---------- *)
+Open Scope Z_scope.
+(* a point with timestamp t may live in group g (ShardGroupInfo.Contains; a truncated group
+   still holds every point it accepted before the truncation) *)
+Definition can_hold (g : sgroup) (t : Z) : Prop := sg_start g <= t < sg_end g.
+Close Scope Z_scope.
